@@ -104,7 +104,8 @@ theorem from_bytes_wide_fn_eq (x0 x1 x2 x3 x4 x5 x6 x7 x8 x9 x10 x11 x12 x13 x14
     from_bytes_wide_fn x0 x1 x2 x3 x4 x5 x6 x7 x8 x9 x10 x11 x12 x13 x14 x15 x16 x17 x18 x19 x20 x21 x22 x23 x24 x25 x26 x27 x28 x29 x30 x31 x32 x33 x34 x35 x36 x37 x38 x39 x40 x41 x42 x43 x44 x45 x46 x47 x48 x49 x50 x51 x52 x53 x54 x55 x56 x57 x58 x59 x60 x61 x62 x63 =
       ap55 add_fn
         (ap9 montgomery_reduce_fn (ap5 mulRR (limbsHi (word x32 x33 x34 x35 x36 x37 x38 x39) (word x40 x41 x42 x43 x44 x45 x46 x47) (word x48 x49 x50 x51 x52 x53 x54 x55) (word x56 x57 x58 x59 x60 x61 x62 x63))))
-        (ap9 montgomery_reduce_fn (ap5 mulR (limbsLo (word x0 x1 x2 x3 x4 x5 x6 x7) (word x8 x9 x10 x11 x12 x13 x14 x15) (word x16 x17 x18 x19 x20 x21 x22 x23) (word x24 x25 x26 x27 x28 x29 x30 x31) (word x32 x33 x34 x35 x36 x37 x38 x39)))) := rfl
+        (ap9 montgomery_reduce_fn (ap5 mulR (limbsLo (word x0 x1 x2 x3 x4 x5 x6 x7) (word x8 x9 x10 x11 x12 x13 x14 x15) (word x16 x17 x18 x19 x20 x21 x22 x23) (word x24 x25 x26 x27 x28 x29 x30 x31) (word x32 x33 x34 x35 x36 x37 x38 x39)))) := by
+  kernel_rfl
 
 theorem limbsLoHi_spec (w0 w1 w2 w3 w4 w5 w6 w7 : Int) (h0 : 0 ≤ w0 ∧ w0 < 2 ^ 64) (h1 : 0 ≤ w1 ∧ w1 < 2 ^ 64)
     (h2 : 0 ≤ w2 ∧ w2 < 2 ^ 64) (h3 : 0 ≤ w3 ∧ w3 < 2 ^ 64) (h4 : 0 ≤ w4 ∧ w4 < 2 ^ 64) (h5 : 0 ≤ w5 ∧ w5 < 2 ^ 64)
